@@ -414,6 +414,8 @@ def v5(F, res):
                         if re.match(r'(id_arena::Arena|tombstone_arena::TombstoneArena|arena_set::ArenaSet)<', recv):
                             continue
                         sites.append('%s indexes a %s' % (p.split('::')[-1], re.sub(r'<.*$', '', recv)))
+                    elif PANICKY.search(fn) and 'debug_assert' in str(t.get('mac') or ''):
+                        pass        # a debug assertion: compiled out of release builds, states an invariant of the code
                     elif PANICKY.search(fn):
                         sites.append('%s calls %s' % (p.split('::')[-1], fn.split('::')[-1] if not fn.startswith('core::panicking') else 'panic!'))
                 elif t.get('t') == 'Assert' and t.get('msg') in ('BoundsCheck', 'DivisionByZero', 'RemainderByZero'):
